@@ -922,6 +922,7 @@ func c18Watcher(res *Result) {
 	file := filepath.Join(dir, "authip.yaml")
 	os.WriteFile(file, []byte(c18File(8|1|2)), 0o644)
 	authip.VerifReset()
+	authip.VerifTouch()
 	if err := authip.LoopIPWhiteList(dir, "authip.yaml"); err != nil {
 		res.Notes = append(res.Notes, "watcher not started: "+err.Error())
 		return
